@@ -315,16 +315,31 @@ type c09Path struct {
 	Sels []c09Sel `json:"sels"`
 }
 type c09Rhs struct {
-	R string   `json:"r"`
-	N int      `json:"n"`
-	S string   `json:"s"`
-	P *c09Path `json:"p"`
+	R    string   `json:"r"` // none num str arrlit objlit path pluck | sort arrof objof asg upd match call meth
+	N    int      `json:"n"`
+	S    string   `json:"s"`
+	P    *c09Path `json:"p"`
+	Es   []c09Rhs `json:"es"`   // arrof: the elements
+	E    *c09Rhs  `json:"e"`    // objof: the member; asg: the value stored; match: the subject; call: the argument
+	Kind string   `json:"kind"` // upd: cadd ... postdec; meth: pop popfirst
+	F    string   `json:"f"`    // call: id h0 hk gx ga
+	Pats []c09Pat `json:"pats"` // match: the alternatives of its one case
+	Arm  *c09Rhs  `json:"arm"`  // match: the arm (an expression)
+}
+
+// c09Pat is a pattern of a match: a name, a number, an array of patterns.
+type c09Pat struct {
+	Pt string   `json:"pt"` // name lit arr
+	Nm string   `json:"nm"`
+	N  int      `json:"n"`
+	Ps []c09Pat `json:"ps"`
 }
 type c09Op struct {
-	Kind string  `json:"kind"`
-	P    c09Path `json:"p"`
-	R    c09Rhs  `json:"r"`
-	F    string  `json:"f"`
+	Kind string   `json:"kind"`
+	P    c09Path  `json:"p"`
+	R    c09Rhs   `json:"r"`
+	F    string   `json:"f"`
+	Pats []c09Pat `json:"pats"` // match statement: the alternatives of its one case
 }
 type c09Exp struct {
 	St   string         `json:"st"` // ok error wild dead
@@ -375,9 +390,93 @@ func (r c09Rhs) String() string {
 		return r.P.String()
 	case "pluck":
 		return r.P.String() + ".pluck(\"k\", \"n\")"
+	case "sort":
+		return r.P.String() + ".sort()"
+	case "arrof":
+		parts := []string{}
+		for _, e := range r.Es {
+			parts = append(parts, e.String())
+		}
+		return "[" + strings.Join(parts, ", ") + "]"
+	case "objof":
+		return "{k: " + r.E.String() + "}"
+	case "asg":
+		return "(" + r.P.String() + " = " + r.E.String() + ")"
+	case "upd":
+		return "(" + c09UpdText(r.Kind, r.P.String()) + ")"
+	case "match":
+		arm := r.Arm.String()
+		if strings.HasPrefix(arm, "{") { // an arm that starts with { is a block
+			arm = "(" + arm + ")"
+		}
+		return "match (" + r.E.String() + ") { " + c09PatsText(r.Pats) + " => " + arm + " }"
+	case "call":
+		return r.F + "(" + r.E.String() + ")"
+	case "meth":
+		if r.Kind == "push" {
+			return r.P.String() + ".push(6)"
+		}
+		return r.P.String() + "." + r.Kind + "()"
 	}
+	infra("C09: unknown expression form %q", r.R)
 	return "null"
 }
+
+func (p c09Pat) String() string {
+	switch p.Pt {
+	case "name":
+		return p.Nm
+	case "lit":
+		return strconv.Itoa(p.N)
+	}
+	parts := []string{}
+	for _, e := range p.Ps {
+		parts = append(parts, e.String())
+	}
+	return "[" + strings.Join(parts, ", ") + "]"
+}
+
+func c09PatsText(ps []c09Pat) string {
+	parts := []string{}
+	for _, p := range ps {
+		parts = append(parts, p.String())
+	}
+	return strings.Join(parts, ", ")
+}
+
+// c09UpdText renders a compound assignment or a step of the place p.
+func c09UpdText(kind, p string) string {
+	switch kind {
+	case "cadd":
+		return p + " += 2"
+	case "csub":
+		return p + " -= 2"
+	case "cstr":
+		return p + " += \"s\""
+	case "preinc":
+		return "++" + p
+	case "postinc":
+		return p + "++"
+	case "predec":
+		return "--" + p
+	case "postdec":
+		return p + "--"
+	}
+	infra("C09: unknown update kind %q", kind)
+	return ""
+}
+
+// c09Arg is the argument of a call / the iterable of a loop: the expression r, or the path p when there is none.
+func c09Arg(op c09Op) string {
+	if op.R.R == "none" || op.R.R == "" {
+		return op.P.String()
+	}
+	return op.R.String()
+}
+
+var c09Bodies = map[string]string{"lr": "e = 9", "lk": "e.k = 9", "li": "e[0] = 9", "lp": "e++", "lm": "--e", "la": "e += 2", "lq": "e.k++",
+	"mr": "p = 9", "mp": "p++", "ma": "p += 2", "mk": "p.k = 9", "mi": "p[0] = 9", "mq": "p.k++",
+	"nr": "q = 9", "np": "q++", "nk": "q.k = 9", "ni": "q[0] = 9", "m2": "p = 9; q++"}
 
 // c09HasResult says whether the statement of op prints an "R" line.
 func c09HasResult(op c09Op) bool {
@@ -410,19 +509,28 @@ func c09Stmt(op c09Op) string {
 	case "read":
 		return "print \"R\", " + p
 	case "call":
-		return op.F + "(" + p + ")"
+		return op.F + "(" + c09Arg(op) + ")"
 	case "loop", "loop2":
-		body, ok := map[string]string{"lr": "e = 9", "lk": "e.k = 9", "li": "e[0] = 9", "lp": "e++", "lm": "--e", "la": "e += 2", "lq": "e.k++"}[op.F]
-		if !ok {
+		body, ok := c09Bodies[op.F]
+		if !ok || op.F[0] != 'l' {
 			infra("C09: unknown loop body %q", op.F)
 		}
 		if op.Kind == "loop2" {
-			return "for (g, e in " + p + ") { " + body + " }"
+			return "for (g, e in " + c09Arg(op) + ") { " + body + " }"
 		}
-		return "for (e in " + p + ") { " + body + " }"
+		return "for (e in " + c09Arg(op) + ") { " + body + " }"
+	case "match":
+		body, ok := c09Bodies[op.F]
+		if !ok || (op.F[0] != 'm' && op.F[0] != 'n') {
+			infra("C09: unknown match body %q", op.F)
+		}
+		return "match (" + op.R.String() + ") { " + c09PatsText(op.Pats) + " => { " + body + " } }"
 	case "pop", "popfirst":
 		return "print \"R\", " + p + "." + op.Kind + "()"
 	case "push":
+		if op.R.R != "none" && op.R.R != "" {
+			return "print \"R\", " + p + ".push(" + op.R.String() + ")"
+		}
 		return "print \"R\", " + p + ".push(6)"
 	}
 	infra("C09: unknown op kind %q", op.Kind)
@@ -430,7 +538,8 @@ func c09Stmt(op c09Op) string {
 }
 
 const c09Funcs = "function fk(v) { v.k = 7 }\nfunction fi(v) { v[0] = 7 }\nfunction fg(v) { v[2] = 7 }\nfunction fr(v) { v = 7 }\n" +
-	"function fp(v) { v++ }\nfunction fa(v) { v += 2 }\nfunction fq(v) { v.k++ }\n"
+	"function fp(v) { v++ }\nfunction fa(v) { v += 2 }\nfunction fq(v) { v.k++ }\n" +
+	"function id(v) { return v }\nfunction h0(v) { return v[0] }\nfunction hk(v) { return v.k }\nfunction hj(v) { return v.j }\nfunction gx(v) { return x }\nfunction ga(v) { return x = v }\n"
 const c09Doc = `{"k": [1, {"k": 2}], "n": 5}`
 
 // c09Program renders a history: after every statement every variable and $ are printed.
@@ -578,12 +687,39 @@ func c09Lines(b []byte) []string {
 }
 
 type c09Stats struct {
+	mu      sync.Mutex // two families run at the same time
 	n, errs int
 	dev     map[string]int
 	tags    map[string]int // what the vectors exercised (vacuity guard)
 }
 
+// c09Forms lists the expression forms that occur in r.
+func c09Forms(r *c09Rhs, into map[string]bool) {
+	if r == nil || r.R == "" || r.R == "none" {
+		return
+	}
+	into[r.R] = true
+	for i := range r.Es {
+		c09Forms(&r.Es[i], into)
+	}
+	c09Forms(r.E, into)
+	c09Forms(r.Arm, into)
+}
+
 func (s *c09Stats) tagVec(v *c09Vec) {
+	s.mu.Lock()
+	defer s.mu.Unlock()
+	forms := map[string]bool{}
+	for i := range v.Ops {
+		c09Forms(&v.Ops[i].R, forms)
+		s.tags["step:"+v.Ops[i].Kind+":"+v.Steps[i].Exp.St]++
+		if k := v.Ops[i].Kind; (k == "call" || k == "loop" || k == "loop2" || k == "push" || k == "match") && v.Ops[i].R.R != "none" && v.Steps[i].Exp.St == "ok" {
+			s.tags["sink:"+k]++
+		}
+	}
+	for f := range forms {
+		s.tags["form:"+f]++
+	}
 	for _, l := range v.Chk {
 		s.tags["law:"+l]++
 	}
@@ -617,7 +753,10 @@ var c09MustTags = []string{"law:frame", "law:readback", "law:alias", "law:readpu
 	"op:loop:error", "op:cadd:ok", "op:cstr:ok", "op:csub:ok", "op:preinc:ok", "op:postinc:ok", "op:predec:ok", "op:postdec:ok", "op:postinc:error",
 	"dev:g0:ok", "dev:g1:ok", "dev:g1:wild", "dev:g1:error", "dev:preinc-missing-index", "skip",
 	"law:meth", "law:loopcopy", "law:callcopy", "law:pluck", "op:pop:ok", "op:popfirst:ok", "op:push:ok", "op:loop2:ok", "op:loop2:error", "rhs:pluck:ok",
-	"dev:method-name-intermediate"}
+	"dev:method-name-intermediate",
+	"law:framex", "law:readbackx", "law:fresh", "law:sort", "law:pure", "law:pushx", "law:sinkcopy", "step:match:ok", "step:match:error", "step:set:ok", "step:postinc:ok",
+	"form:sort", "form:arrof", "form:objof", "form:asg", "form:upd", "form:match", "form:call", "form:meth", "form:pluck",
+	"sink:call", "sink:loop", "sink:loop2", "sink:push", "sink:match"}
 
 var c09DevText = map[string]string{
 	"alias-length":             "a change of an array's length made through one reference is not seen through the others",
@@ -667,6 +806,8 @@ func c09Judge(c *Ctx, v *c09Vec, r Result, arrayRoot bool, prog string, stats *c
 				return
 			}
 		}
+		stats.mu.Lock()
+		defer stats.mu.Unlock()
 		if wild {
 			stats.dev["(of these: accepted because the deviation's outcome is not modelled)"]++
 		}
@@ -718,6 +859,8 @@ func c09RunMC(c *Ctx, pool *Pool, name string, cfg string, files map[string]stri
 		nontrivial := len(v.Ops) >= 2
 		key := name + ":" + string(j.Hist[0].Prog)
 		c.Case(key, nontrivial)
+		stats.mu.Lock()
+		defer stats.mu.Unlock()
 		stats.n++
 		if v.Steps[len(v.Steps)-1].Exp.St == "error" {
 			stats.errs++
@@ -727,7 +870,7 @@ func c09RunMC(c *Ctx, pool *Pool, name string, cfg string, files map[string]stri
 				"expected_last_step": v.Steps[len(v.Steps)-1].Exp})
 		}
 	})
-	c.TLC(TLCOpt{Module: "MC_Heap", Cfg: cfg, Files: files, Workers: 12, Heap: "6g",
+	c.TLC(TLCOpt{Module: "MC_Heap", Cfg: cfg, Files: files, Workers: 8, Heap: "6g",
 		OnVec: func(raw []byte) {
 			v := &c09Vec{}
 			VecDecode(raw, v)
@@ -761,7 +904,7 @@ func c09Cfg(mode string, maxOps int, wide bool) string {
 
 // c09RandomHistories writes seeded random histories over the operation
 // universe of MC_Heap (any path of depth <= 3) as JSON for Mode = "given".
-func c09RandomHistories(seed int64, n, depth int) string {
+func c09RandomHistories(seed int64, n, depth, nx int) string {
 	r := rand.New(rand.NewSource(seed*104729 + 17))
 	sels := []map[string]any{{"s": "key", "k": "k"}, {"s": "key", "k": "j"}, {"s": "idx", "i": 0}, {"s": "idx", "i": 1},
 		{"s": "idx", "i": 2}, {"s": "idx", "i": 5}, {"s": "idx", "i": -1}, {"s": "idx", "i": -3}, {"s": "key", "k": "length"}, {"s": "idx", "i": 1}, {"s": "idx", "i": 3}}
@@ -830,8 +973,123 @@ func c09RandomHistories(seed int64, n, depth int) string {
 		}
 		hs = append(hs, h)
 	}
+	hs = append(hs, c09RandomExprHistories(seed, nx, depth)...)
 	b, _ := json.Marshal(hs)
 	return string(b)
+}
+
+// c09RandomExprHistories: seeded random histories whose statements put the value of a random expression (the
+// forms of MC_Heap's EvalR, nested up to depth 2) into a random sink, mixed with stores, steps and reads.
+func c09RandomExprHistories(seed int64, n, depth int) []any {
+	r := rand.New(rand.NewSource(seed*7368787 + 5))
+	sels := []map[string]any{{"s": "key", "k": "k"}, {"s": "key", "k": "j"}, {"s": "idx", "i": 0}, {"s": "idx", "i": 1},
+		{"s": "idx", "i": 2}, {"s": "idx", "i": -1}, {"s": "key", "k": "n"}, {"s": "idx", "i": 0}, {"s": "key", "k": "k"}}
+	pathOf := func(base string, maxd int) map[string]any {
+		ss := []any{}
+		d := r.Intn(maxd + 1)
+		for i := 0; i < d; i++ {
+			ss = append(ss, sels[r.Intn(len(sels))])
+		}
+		return map[string]any{"base": base, "sels": ss}
+	}
+	path := func(maxd int) map[string]any { return pathOf([]string{"x", "y", "$", "x", "y"}[r.Intn(5)], maxd) }
+	none := map[string]any{"r": "none"}
+	name := func(n string) map[string]any { return map[string]any{"pt": "name", "nm": n} }
+	lit := func(n int) map[string]any { return map[string]any{"pt": "lit", "n": n} }
+	arr := func(ps ...any) map[string]any { return map[string]any{"pt": "arr", "ps": ps} }
+	pats := func() []any {
+		switch r.Intn(7) {
+		case 0:
+			return []any{name("p")}
+		case 1:
+			return []any{lit(1), arr(name("p"), name("q"))}
+		case 2:
+			return []any{arr(lit([]int{1, 8, 7}[r.Intn(3)]), name("q"))}
+		case 3:
+			return []any{arr(name("p"), arr(name("q"), lit(3)))}
+		case 4:
+			return []any{arr(name("p"))}
+		case 5:
+			return []any{arr(name("q"), name("p"), name("q"))} // the later binding of q wins
+		}
+		return []any{arr(name("p"), name("q"))}
+	}
+	updKinds := []string{"cadd", "csub", "cstr", "preinc", "postinc", "predec", "postdec"}
+	var expr func(d int, inArm bool) map[string]any
+	expr = func(d int, inArm bool) map[string]any {
+		place := func() map[string]any {
+			if inArm && r.Intn(2) == 0 {
+				return pathOf([]string{"p", "q"}[r.Intn(2)], 1)
+			}
+			return path(2)
+		}
+		if d <= 0 {
+			switch r.Intn(6) {
+			case 0:
+				return map[string]any{"r": "num", "n": 7}
+			case 1:
+				return map[string]any{"r": []string{"arrlit", "objlit"}[r.Intn(2)]}
+			}
+			return map[string]any{"r": "path", "p": place()}
+		}
+		switch r.Intn(14) {
+		case 0:
+			return map[string]any{"r": "sort", "p": place()}
+		case 1, 2:
+			es := []any{}
+			for i, k := 0, r.Intn(3); i <= k; i++ {
+				es = append(es, expr(d-1, inArm))
+			}
+			if r.Intn(8) == 0 {
+				es = []any{}
+			}
+			return map[string]any{"r": "arrof", "es": es}
+		case 3:
+			return map[string]any{"r": "objof", "e": expr(d-1, inArm)}
+		case 4, 5:
+			return map[string]any{"r": "asg", "p": place(), "e": expr(d-1, inArm)}
+		case 6:
+			return map[string]any{"r": "upd", "kind": updKinds[r.Intn(len(updKinds))], "p": place()}
+		case 7, 8:
+			return map[string]any{"r": "match", "e": expr(d-1, inArm), "pats": pats(), "arm": expr(d-1, true)}
+		case 9, 10:
+			return map[string]any{"r": "call", "f": []string{"id", "h0", "hk", "hj", "gx", "ga"}[r.Intn(6)], "e": expr(d-1, inArm)}
+		case 11:
+			return map[string]any{"r": "meth", "kind": []string{"pop", "popfirst", "push"}[r.Intn(3)], "p": place()}
+		case 12:
+			return map[string]any{"r": "pluck", "p": place()}
+		}
+		return expr(d-1, inArm)
+	}
+	x := map[string]any{"base": "x", "sels": []any{}}
+	hs := make([]any, 0, n)
+	for i := 0; i < n; i++ {
+		h := []any{}
+		for k := 0; k < depth; k++ {
+			var op map[string]any
+			switch w := r.Intn(20); {
+			case w < 6:
+				op = map[string]any{"kind": "set", "p": path(2), "r": expr(1+r.Intn(2), false), "f": ""}
+			case w < 8:
+				op = map[string]any{"kind": "call", "p": x, "r": expr(1+r.Intn(2), false), "f": []string{"fk", "fi", "fg", "fr", "fp", "fa", "fq"}[r.Intn(7)]}
+			case w < 10:
+				op = map[string]any{"kind": []string{"loop", "loop2"}[r.Intn(2)], "p": x, "r": expr(1+r.Intn(2), false), "f": []string{"lr", "lk", "li", "lp", "lm", "la", "lq"}[r.Intn(7)]}
+			case w < 13:
+				op = map[string]any{"kind": "match", "p": x, "r": expr(r.Intn(3), false), "f": []string{"mr", "mp", "ma", "mk", "mi", "mq", "nr", "np", "nk", "ni", "m2"}[r.Intn(11)], "pats": pats()}
+			case w < 14:
+				op = map[string]any{"kind": "push", "p": path(2), "r": expr(r.Intn(2), false), "f": ""}
+			case w < 16:
+				op = map[string]any{"kind": "set", "p": path(3), "r": map[string]any{"r": []string{"num", "arrlit", "objlit"}[r.Intn(3)], "n": 7}, "f": ""}
+			case w < 18:
+				op = map[string]any{"kind": updKinds[r.Intn(len(updKinds))], "p": path(3), "r": none, "f": ""}
+			default:
+				op = map[string]any{"kind": "read", "p": path(3), "r": none, "f": ""}
+			}
+			h = append(h, op)
+		}
+		hs = append(hs, h)
+	}
+	return hs
 }
 
 // ---------------------------------------------------------------------------
@@ -1012,6 +1270,9 @@ func checkC09(c *Ctx) {
 	c.Assume("values: small integers, two strings, fresh [8, 9] and {k: 3} literals, aliases of x / y / $.k; document {\"k\": [1, {\"k\": 2}], \"n\": 5} both as the root object and as element 0 of a root array")
 	c.Assume("the value of a for-in loop variable after the loop is not observed; loops run over arrays and objects (one- and two-variable form), other iterables are C07's")
 	c.Assume("read family: programs that end in a runtime error have no -o document and are not compared")
+	c.Assume("expression forms (a path, an assignment / compound assignment / ++ -- used as a value, a match expression, calls of id / h0 / hk / hj / gx / ga, sort, pop, popfirst, push(6), pluck, array and object literals of these): where the order of evaluation inside ONE statement would matter it is left open: a store whose right-hand side changes a container on the target's own path (or calls two length-changing methods) and a push whose argument changes the receiver are not generated")
+	c.Assume("a variable that is first assigned inside a function or a match arm is not generated (which frame it then belongs to is not this property's matter); an unset value inside a literal, as a match subject or as the value stored is not generated")
+	c.Assume("sort() is used on arrays of numbers and strings of at most 4 characters (the order of null / booleans / containers is C15's); literal patterns are numbers and meet only numbers and null (what a literal equals is C05's / C19's); the names a pattern binds are not observed after the match")
 	pool := c.Pool()
 	pool.Timeout = 120 * time.Second
 	stats := &c09Stats{dev: map[string]int{}, tags: map[string]int{}}
@@ -1026,21 +1287,56 @@ func checkC09(c *Ctx) {
 			t0 := time.Now()
 			f()
 			if only != "" || os.Getenv("C09_TIMING") != "" {
+				stats.mu.Lock()
 				fmt.Fprintf(os.Stderr, "C09 family %s: %.1fs (histories so far %d)\n", name, time.Since(t0).Seconds(), stats.n)
+				stats.mu.Unlock()
 			}
 		}
 	}
-	fam("depth", func() { c09RunMC(c, pool, "depth", c09Cfg("depth", depth, false), nil, stats) })
-	fam("breadth", func() { c09RunMC(c, pool, "breadth", c09Cfg("breadth", 1, c.Thorough()), nil, stats) })
-	fam("names", func() { c09RunMC(c, pool, "names", c09Cfg("names", 1, false), nil, stats) })
-	simN, simD := 2000, 8
+	simN, simD, simX := 2000, 8, 500
 	if c.Thorough() {
-		simN, simD = 30000, 10
+		simN, simD, simX = 30000, 10, 10000
 	}
-	fam("given", func() {
-		c09RunMC(c, pool, "given", c09Cfg("given", simD, false), map[string]string{"given.json": c09RandomHistories(c.Seed, simN, simD)}, stats)
-	})
-	fam("read", func() { c09ReadFamily(c, pool) })
+	// two lanes at the same time (each TLC run has a few seconds of start-up during which the replay workers idle)
+	specDir := c.specDir()
+	if d := os.Getenv("C09_SPEC_DIR"); d != "" { // development: take MC_Heap.tla / JqHeap.tla from a scratch directory
+		for _, n := range []string{"MC_Heap.tla", "JqHeap.tla"} {
+			if b, err := os.ReadFile(d + "/" + n); err == nil {
+				os.WriteFile(specDir+"/"+n, b, 0o644)
+			}
+		}
+	}
+	var lanes sync.WaitGroup
+	lane := func(fs ...func()) {
+		lanes.Add(1)
+		go func() {
+			defer lanes.Done()
+			for _, f := range fs {
+				f()
+			}
+		}()
+	}
+	famDepth := func() { fam("depth", func() { c09RunMC(c, pool, "depth", c09Cfg("depth", depth, false), nil, stats) }) }
+	famBreadth := func() {
+		fam("breadth", func() { c09RunMC(c, pool, "breadth", c09Cfg("breadth", 1, c.Thorough()), nil, stats) })
+	}
+	famNames := func() { fam("names", func() { c09RunMC(c, pool, "names", c09Cfg("names", 1, false), nil, stats) }) }
+	famExpr := func() { fam("expr", func() { c09RunMC(c, pool, "expr", c09Cfg("expr", 1, c.Thorough()), nil, stats) }) }
+	famGiven := func() {
+		fam("given", func() {
+			c09RunMC(c, pool, "given", c09Cfg("given", simD, false), map[string]string{"given.json": c09RandomHistories(c.Seed, simN, simD, simX)}, stats)
+		})
+	}
+	famRead := func() { fam("read", func() { c09ReadFamily(c, pool) }) }
+	if c.Thorough() { // depth alone takes as long as breadth and names, or as expr and given
+		lane(famDepth)
+		lane(famBreadth, famNames, famRead)
+		lane(famExpr, famGiven)
+	} else {
+		lane(famDepth, famBreadth)
+		lane(famNames, famExpr, famGiven, famRead)
+	}
+	lanes.Wait()
 
 	for _, t := range c09MustTags {
 		if stats.tags[t] == 0 && only == "" {
@@ -1052,9 +1348,11 @@ func checkC09(c *Ctx) {
 	c.Set("rule", "MC_Heap emits every history (depth: <= MaxOps operations over the 45-operation alphabet Small; breadth: 20 prefixes (6 of them with arrays shrunk by pop / popfirst or an object made by pluck) x every operation of Big = "+
 		"{set x 8 right-hand sides, += -= +=str, ++/-- pre/post, read, 4 mutating calls, 3 for-in loops} x every path of depth <= 2 (thorough: <= 3) over x, y, $, plus {pop, popfirst, push, "+
 		"3 calls and 11 loops (one/two variables) that step or update the parameter / loop variable, pluck} x every path of depth <= 1 and 5 deeper ones (thorough: all); names: 9 prefixes x {set x 3, 7 updates, read, 2 calls, 1 loop} x every path of depth <= 2 over the keys length, pluck, push, k and index 0; "+
-		"given: seeded random histories of up to sim_depth operations over any path of depth <= 3) with x, y, $ after every operation; each is run on the document as root object and as element 0 of a root array; "+
+		"expr: 12 prefixes (x a number / [8, 9] / {k: 3} / $.k / unset / arrays in and out of order, mixed, of one and no element, nested) x their source places (a variable, an element, a member, a missing member, in x and in $) x {28 (thorough 37) expression forms over the place: path, (p = v), (p op= v), ++/--, match expressions whose arm is a place / a bound name / a step, calls that return the parameter / an element / a member / a missing member / the global / an assignment, sort, pop, popfirst, push, pluck, literals} "+
+		"x {12 stores (variable, member, element, into $, as element / member of a literal, through id(), through a match, chained), 5 calls and 5 loops whose body stores to or steps the parameter / loop variable, 2 push, match statements with 5 pattern lists (name, [p, q], 1 | [p, q], [8, q], [p, [q, 3]]) x up to 11 bodies that store to / step a bound name or a part of it (quick: over 6 subject forms)}, then a step of / a store to every scalar place that exists below the variables the statement mentions (alternating; thorough: both); "+
+		"given: seeded random histories of up to sim_depth operations over any path of depth <= 3, and sim_expression_histories ones whose statements put a random expression (nesting <= 2) into a random sink) with x, y, $ after every operation; each is run on the document as root object and as element 0 of a root array; "+
 		"non-trivial = at least two operations; distinct by program text. Read family: seeded random assignment-free expressions, -o document vs input")
 	c.Set("checker_cmd", "tlc MC_Heap (Mode depth / breadth / names / given); replay through lang.EvalProgram + GetRootJson")
-	c.Set("bounds", map[string]any{"depth_ops": depth, "sim_histories": simN, "sim_depth": simD})
+	c.Set("bounds", map[string]any{"depth_ops": depth, "sim_histories": simN, "sim_expression_histories": simX, "sim_depth": simD})
 	c.Set("histories", map[string]any{"replayed": stats.n, "ending_in_expected_error": stats.errs, "runs_needing_open_deviation": stats.dev})
 }
